@@ -647,3 +647,116 @@ def c05(tier):
 
 
 PROPS["C05"] = c05
+
+
+def _corrupt_c08(events):
+    ev = json.loads(json.dumps(events))
+    for i, e in enumerate(ev):
+        if e.get("ev") == "accepted":
+            dup = dict(e)
+            ev.insert(i + 1, dup)          # the same stream delivered twice
+            return ev
+    return None
+
+
+def c08(tier):
+    import scen
+    return e2e_check(
+        "C08", tier, scen.c08(tier, vlib.seed()), "C08Trace.tla", _corrupt_c08,
+        ["1..40 streams (300 in thorough), two thirds uni one third bidi, opened by a raw peer or a wtransport peer, accepted by "
+         "1/2/4 concurrent tasks per kind with 0/3 ms pauses, with pending accepts dropped after 1 or 4 ms and reissued; each "
+         "stream carries its own id; Driver.tla (accept path with permits, per-stream tasks, receiver mutex, cancellation) is "
+         "model-checked for ExactlyOnce / PermitsSane",
+         "streams reset by their sender before being accepted are not used (a reset may legitimately discard the preamble)"],
+        mc_cfgs=[("DriverMC.tla", "Driver_safety_quick.cfg" if tier == "quick" else "Driver_safety.cfg")],
+        par=4, threads=4, runs=2 if tier == "thorough" else 1)
+
+
+PROPS["C08"] = c08
+
+
+def _corrupt_c07(events):
+    ev = json.loads(json.dumps(events))
+    for e in ev:
+        if e.get("ev") == "op_done" and e.get("op") in ("accept_uni", "accept_bi") and e.get("res") == "ok" \
+                and str(e.get("tag", "")).startswith("ah"):
+            e["res"] = "timeout"
+            return ev
+    return None
+
+
+def _case_c07(scn, hist):
+    m = scn.get("meta", {})
+    failed = [e for e in hist if e.get("ev") == "op_done" and e.get("op") in ("accept_uni", "accept_bi", "recv_dgram")
+              and str(e.get("tag", "")).startswith(("ah", "")) and e.get("res") != "ok"
+              and not str(e.get("tag", "")).startswith("x")]
+    ops = {e.get("op") for e in failed}
+    closed_ok = any(e.get("ev") == "peer_closed" and e.get("why", {}).get("k") == "ApplicationClosed" for e in hist)
+    partial = m.get("pos") in ("partial1", "partial_sid")
+    if partial and closed_ok and m.get("kind") == "uni" and m.get("k", 0) >= 4 and ops == {"accept_uni"}:
+        return {"c07_pattern": "uni accepts blocked behind >=4 uni streams whose preamble is incomplete"}
+    if partial and closed_ok and m.get("kind") == "bi" and m.get("k", 0) >= 1 and ops == {"accept_bi"}:
+        return {"c07_pattern": "bidi accepts blocked behind >=1 bidi streams whose first frame is incomplete"}
+    return {"c07_pattern": "other"}
+
+
+def c07(tier):
+    import scen
+    combine.t0 = time.time()
+    # the mechanism model: independence holds below the queue capacities and - as in the code -
+    # fails at them (the two known findings); both facts are part of the evidence
+    mc = []
+    for cfg, expect_ok in (("Driver_live_ok.cfg", True), ("Driver_live_d7uni.cfg", False), ("Driver_live_d7bi.cfg", False)):
+        if tier == "quick" and cfg == "Driver_live_ok.cfg":
+            cfg = "Driver_live_okq.cfg"
+        r = vlib.tlc_mc("DriverMC.tla", cfg, "C07-" + cfg, workers=8)
+        if r["ok"] != expect_ok:
+            raise vlib.ToolError("Driver.tla %s: expected %s" % (cfg, "no error" if expect_ok else "a liveness counterexample"))
+        mc.append({"spec": "DriverMC.tla", "cfg": cfg, "ok": r["ok"], "expected_ok": expect_ok,
+                   "generated": r["generated"], "distinct": r["distinct"], "wall_s": r["wall_s"]})
+    return e2e_check(
+        "C07", tier, scen.c07(tier, vlib.seed()), "C07Trace.tla", _corrupt_c07,
+        ["k = 1..5 stalled peer streams of either kind at 4 stall positions (1 byte of the preamble, preamble cut inside the session id, "
+         "complete preamble then silence, 200 kB unread), before or after healthy traffic; healthy uni + bidi streams, datagrams and a "
+         "clean close must get through (5 s bound); both roles; Driver.tla checked for the liveness property below the queue capacities "
+         "and shown to fail at them (known findings D7)",
+         "a stream on which no byte at all was written does not exist for the receiver (QUIC sends nothing): the 'no byte' position is covered by '1 byte'"],
+        mc_results=mc, par=6, threads=4, case_of=_case_c07)
+
+
+PROPS["C07"] = c07
+
+
+def _corrupt_c09(events):
+    ev = json.loads(json.dumps(events))
+    seen_mark = False
+    for e in ev:
+        if e.get("ev") == "mark":
+            seen_mark = True
+        if seen_mark and e.get("ev") == "op_done" and e.get("op") in ("accept_uni", "accept_bi", "recv_dgram") \
+                and e.get("res") == "err":
+            e["res"] = "timeout"
+            del e["err"]
+            return ev
+    for e in ev:
+        if e.get("ev") == "peer_closed" and e.get("why", {}).get("k") != "LocallyClosed":
+            e["why"] = {"k": "LocallyClosed"}
+            return ev
+    return None
+
+
+def c09(tier):
+    import scen
+    cfgs = [("DriverMC.tla", "Driver_term_quick.cfg" if tier == "quick" else "Driver_term.cfg")]
+    return e2e_check(
+        "C09", tier, scen.c09(tier, vlib.seed()), "C09Trace.tla", _corrupt_c09,
+        ["causes {peer QUIC close, close capsule, clean FIN, local protocol error provoked by the peer, local close, idle timeout (700 ms), "
+         "all handles dropped, all handles dropped with stalled incoming streams} x pending operations {accept_uni, accept_bi, receive_datagram, "
+         "closed, read, stopped} x {0, 2} cloned handles x both roles; every pending and later call must complete within 5-7 s with an error "
+         "from the cause's allowed set; the raw peer must see the close; Driver.tla model-checked: the shared result is set before any queue "
+         "closes (Driver::result cannot panic), the cause is never misattributed, termination completes",
+         "a pending connection-level call holds a handle, so 'all handles dropped' is exercised without pending calls"],
+        mc_cfgs=cfgs, par=6, threads=4)
+
+
+PROPS["C09"] = c09
